@@ -3,7 +3,9 @@ import DeepModel.Props.C09
 #print axioms C09.c09_flush_skeleton_guarded
 #print axioms C09.c09_flush_skeleton_never_raises
 #print axioms C09.c09_flush_completes
-#print axioms C09.c09_drained
+#print axioms C09.c09_drained_partial
+#print axioms C09.c09_drained_needs_no_overlap
+#print axioms C09.c09_drained_needs_no_timeout
 #print axioms C09.c09_waits_for_all
 #print axioms C09.c09_once
 #print axioms C09.c09_sends_per_outcome
